@@ -352,6 +352,35 @@ func (w *World) CheckKids(tx *bbolt.Tx, m *Model) error {
 			return fmt.Errorf("child store %s: QueryIds(true sort by name desc, id) = %q (count %d), expected %q", name, sorted, scount, wantSorted)
 		}
 		_ = byName
+		// the same population when the caller supplies the cursor (over every id of the parent store)
+		if pq, perr := ast.Parse(ks, "true"); perr == nil {
+			cids, ccount, cerr := ks.QueryWithCursorC(tx, func(tx *bbolt.Tx, forward bool) ast.SetCursor {
+				set := ast.NewTreeSet(forward)
+				for _, id := range all {
+					set.Add([]byte(id))
+				}
+				if len(all) == 0 {
+					return ast.NewEmptyCursor()
+				}
+				return set.ToCursor()
+			}, pq)
+			if cerr != nil || fmt.Sprint(cids) != fmt.Sprint(population) && !(len(cids) == 0 && len(population) == 0) || int(ccount) != len(population) {
+				return fmt.Errorf("child store %s: QueryWithCursorC(cursor over all parent ids, true) = %q (count %d, err %v), expected population %q", name, cids, ccount, cerr, population)
+			}
+		}
+		// a filter over a map element inherited from the parent (tags live in the parent's part of the entity)
+		for _, tv := range []string{"x", "y"} {
+			var wantTagged []string
+			for _, id := range population {
+				if t := m.Ents[cc.Parent][id].TagV; t != nil && *t == tv {
+					wantTagged = append(wantTagged, id)
+				}
+			}
+			tagged, _, terr := ks.QueryIds(tx, `tags.t = "`+tv+`"`)
+			if terr != nil || fmt.Sprint(tagged) != fmt.Sprint(wantTagged) && !(len(tagged) == 0 && len(wantTagged) == 0) {
+				return fmt.Errorf("child store %s: QueryIds(tags.t = %q) = %q (err %v), expected %q", name, tv, tagged, terr, wantTagged)
+			}
+		}
 		// cursor-style iteration with paging through the child store: skip and limit count child entities only
 		if pq, perr := ast.Parse(ks, "true skip 1 limit 2"); perr == nil {
 			var paged []string
